@@ -142,8 +142,13 @@ func anyFileNewerThan(files []string, givenTime time.Time) (bool, error) {
 }
 
 // OnError implements the Checker interface
-func (*TimestampChecker) OnError(t *ast.Task) error {
-	return nil
+func (checker *TimestampChecker) OnError(t *ast.Task) error {
+	if len(t.Sources) == 0 || checker.dry {
+		return nil
+	}
+	// The timestamp file was touched before the commands ran. Remove it so
+	// that the failed attempt does not make the task look up to date.
+	return os.Remove(checker.timestampFilePath(t))
 }
 
 func (checker *TimestampChecker) timestampFilePath(t *ast.Task) string {
